@@ -38,6 +38,7 @@ type Config struct {
 	WPay, WEphemeral, WSiafund, WContractV1, WContractV2, WPolicy, WFoundation, WAttest int
 
 	InitialDifficulty int
+	LightJSON         bool // some light clients consume JSON-round-tripped updates
 }
 
 // epoch is the start of simulated wall time (independent of the real clock).
